@@ -642,6 +642,21 @@ func levelForms(l zapcore.Level) (forms []string, msg string) {
 		return nil, fmt.Sprintf("marshal-error: yaml.Marshal(AtomicLevel) returned %v", err)
 	}
 	forms = []string{s, cs, string(mt), as, string(amt), fmt.Sprintf("%d", int(l)), strings.ToLower(cs)}
+	// the marshaled text belongs to the caller: using it as scratch space must not
+	// change what the next marshal of the same level produces
+	mtText, amtText := string(mt), string(amt)
+	for _, b := range [][]byte{mt, amt} {
+		for i := range b {
+			b[i] = '#'
+		}
+		_ = append(b[:0], "error"...)
+	}
+	mt2, err2 := l.MarshalText()
+	amt2, err3 := a.MarshalText()
+	if err2 != nil || err3 != nil || string(mt2) != mtText || string(amt2) != amtText {
+		return forms, fmt.Sprintf("marshal-result-shared: after the caller overwrote the slices MarshalText returned, marshaling again gives %q, %v and %q, %v (before: %q and %q)", mt2, err2, amt2, err3, mtText, amtText)
+	}
+	mt, amt = mt2, amt2
 	if a.Level() != l {
 		return forms, fmt.Sprintf("atomic-level-value: NewAtomicLevelAt(%d).Level() = %d", l, a.Level())
 	}
